@@ -1410,6 +1410,16 @@ class Interp:
                     continue
                 if cur is old:
                     self.write(st, Loc(obj, path, None), new)
+        if T.ENABLED:
+            # a refined value that *is* an input symbol (e.g. the unknown length `len`): every other copy of the
+            # symbol in the state -- slice metadata, locals -- denotes the same number and takes the same bounds
+            for (old, new) in ((a, na), (b, nb)):
+                if new is not old and old.term is not None and old.term[0] == 's' and not old.signed:
+                    for k in list(st.mem):
+                        v0 = st.mem[k]
+                        v1 = _refine_sym(v0, old.term, new.lo, new.hi, 0)
+                        if v1 is not v0:
+                            st.mem[k] = v1
 
     # ---------------------------------------------------------------- statements
     def stmt(self, frame, st, s):
@@ -1740,17 +1750,29 @@ class Interp:
         """treat a callee as an uninterpreted function of its arguments (term engine)"""
         rt = self.cur_dest_ty
         ts = []
-        for a in args:
+        spec = self.summaries[name]
+        deep = isinstance(spec, tuple)        # ('deep', tag): pointer arguments stand for the *contents* they point to
+        for ai, a in enumerate(args):
             if isinstance(a, AInt):
                 ts.append(a.term if a.term is not None else (T.const(a.w, a.const) if a.const is not None else None))
+            elif isinstance(a, Ptr) and deep:
+                pty = self.m.fn(callee['inst'])['mir']['locals'][ai + 1]
+                v = self.read(st, self.deref(a, self.types[pty]['t'], st))
+                leaves = []
+                _leaf_terms(v, leaves)
+                ts.append(None if any(x is None for x in leaves) else T.op('mem', 0, *leaves))
             elif isinstance(a, (Ptr, RawPtr)):
                 ts.append(T.sym('&%s' % (self.ptr_name(a),), 0))
+            elif deep and isinstance(a, (Arr, Struct)):
+                leaves = []
+                _leaf_terms(a, leaves)
+                ts.extend(leaves)
             else:
                 ts.append(getattr(a, 'term', None))
         ii = self.int_info(rt)
         okts = all(t is not None for t in ts)
         v = self.top(rt)
-        sname = 'fn:' + self.summaries[name]
+        sname = 'fn:' + (spec[1] if deep else spec)
         if isinstance(v, AInt):
             return v.with_term(T.op(sname, ii[0], *ts) if okts else None)
         if isinstance(v, Arr) and okts:
@@ -1766,6 +1788,52 @@ class Interp:
 
     def panic_desc(self, name, t):
         return name.split('::')[-1] + (' via ' + ' '.join(t['x'])[:60] if t.get('x') else '')
+
+
+def _refine_sym(v, term, lo, hi, depth):
+    """intersect with [lo, hi] every unsigned integer in v whose term is the symbol `term`"""
+    if isinstance(v, AInt):
+        if v.term is term and (v.lo < lo or v.hi > hi) and not v.signed:
+            return AInt(v.w, max(v.lo, lo), min(v.hi, hi), v.kz, v.ko, v.signed, v.term)
+        return v
+    if depth > 6:
+        return v
+    if isinstance(v, Ptr):
+        nl = _refine_sym(v.length, term, lo, hi, depth + 1) if v.length is not None else None
+        ns = _refine_sym(v.start, term, lo, hi, depth + 1) if v.start is not None else None
+        ne = _refine_sym(v.elem, term, lo, hi, depth + 1) if v.elem is not None else None
+        if nl is v.length and ns is v.start and ne is v.elem:
+            return v
+        p = v.copy()
+        p.length, p.start, p.elem = nl, ns, ne
+        return p
+    if isinstance(v, (Struct, Enum)):
+        nf = [_refine_sym(x, term, lo, hi, depth + 1) for x in v.f]
+        if all(x is y for x, y in zip(nf, v.f)):
+            return v
+        return Struct(v.ty, nf) if isinstance(v, Struct) else Enum(v.ty, v.variant, nf)
+    if isinstance(v, ArrSum):
+        nn = _refine_sym(v.n, term, lo, hi, depth + 1)
+        return v if nn is v.n else ArrSum(v.ty, v.elem, nn)
+    if isinstance(v, Arr) and len(v.e) <= 8:
+        ne = [_refine_sym(x, term, lo, hi, depth + 1) for x in v.e]
+        if all(x is y for x, y in zip(ne, v.e)):
+            return v
+        return Arr(v.ty, ne)
+    return v
+
+
+def _leaf_terms(v, out):
+    if isinstance(v, AInt):
+        out.append(v.term if v.term is not None else (T.const(v.w, v.const) if v.const is not None else None))
+    elif isinstance(v, (Struct, Enum)):
+        for x in v.f:
+            _leaf_terms(x, out)
+    elif isinstance(v, Arr):
+        for x in v.e:
+            _leaf_terms(x, out)
+    else:
+        out.append(getattr(v, 'term', None))
 
 
 def drop_term(v):
